@@ -50,7 +50,7 @@ PROPS = {
     'C06': dict(streams=[('expr', 2000, 150000)]),
     'C07': dict(streams=[('update', 2000, 150000)]),
     'C08': dict(streams=[('failing', 80, 3000)]),
-    'C09': dict(streams=[('malformed', 2000, 150000), ('expr', 1200, 50000), ('update', 600, 30000), ('conditional', 40, 1500)]),
+    'C09': dict(streams=[('malformed', 2000, 150000), ('expr', 1200, 50000), ('update', 600, 30000), ('conditional', 40, 1500), ('lazy', 40, 1500)]),
     'C10': dict(streams=[('values', 80, 3000)]),
     'C12': dict(streams=[('numbers', 3000, 200000), ('update', 1200, 50000), ('numkeys', 40, 2000)]),
     'C13': dict(streams=[('keys', 80, 3000)]),
